@@ -7,11 +7,13 @@
 // For every call (randomness and rounds drawn from small pools so that keys repeat and collide in all
 // but one component): size == configured group size, pairwise distinct keys, subset of the shard's
 // eligible list of that epoch, group[0] == first key of GetConsensusValidatorsPublicKeys, A == B,
-// and A asked again (warm cache) == first answer.
+// and A asked again (warm cache) == first answer. Each case ends with a concurrent burst: 4-8 goroutines ask A
+// for groups of one shard/epoch with fresh randomness; every answer must equal B's sequential answer.
 package main
 
 import (
 	"fmt"
+	"sync"
 	"sync/atomic"
 
 	logger "github.com/ElrondNetwork/elrond-go-logger"
@@ -260,6 +262,83 @@ func main() {
 		for i := 0; i < n2; i++ {
 			if !call("final") {
 				return
+			}
+		}
+		// concurrent burst: several goroutines ask coordinator A for groups of the SAME shard and epoch with
+		// fresh randomness (cache misses), as interceptors verifying headers do; every answer must equal what
+		// coordinator B computes sequentially for the same input, and be well formed
+		{
+			shard := shards[rng.Intn(len(shards))]
+			epoch := epochs[rng.Intn(len(epochs))]
+			want := spec.Cons(shard)
+			workers := 4 + rng.Intn(5)
+			per := 6
+			type q struct {
+				rnd   []byte
+				round uint64
+				got   []string
+				err   error
+			}
+			qs := make([][]q, workers)
+			for w := range qs {
+				qs[w] = make([]q, per)
+				for i := range qs[w] {
+					qs[w][i] = q{rnd: rng.Bytes(8 + rng.Intn(25)), round: rounds[rng.Intn(len(rounds))]}
+				}
+			}
+			var wg sync.WaitGroup
+			start := make(chan struct{})
+			for w := 0; w < workers; w++ {
+				wg.Add(1)
+				go func(w int) {
+					defer wg.Done()
+					<-start
+					for i := range qs[w] {
+						g, errC := a.ComputeConsensusGroup(append([]byte(nil), qs[w][i].rnd...), qs[w][i].round, shard, epoch)
+						qs[w][i].err = errC
+						if errC == nil {
+							qs[w][i].got = groupKeys(g)
+						}
+					}
+				}(w)
+			}
+			close(start)
+			wg.Wait()
+			r.Count("concurrent_bursts", 1)
+			for w := range qs {
+				for _, e := range qs[w] {
+					r.Eval(1)
+					r.Count("concurrent_calls", 1)
+					det := map[string]interface{}{"spec": spec.Dump(), "randomness": vk.Hex(e.rnd), "round": e.round, "shard": sg.ShardName(shard), "epoch": epoch, "workers": workers, "epochChangeInfos": infosDump}
+					if e.err != nil {
+						r.Violation(c.Idx, "error-on-valid-input mode=concurrent", fmt.Sprintf("concurrent ComputeConsensusGroup(shard %s, epoch %d): %v", sg.ShardName(shard), epoch, e.err), det)
+						return
+					}
+					gB, errB := b.ComputeConsensusGroup(append([]byte(nil), e.rnd...), e.round, shard, epoch)
+					if errB != nil {
+						r.Violation(c.Idx, "error-on-valid-input", "coordinator B: "+errB.Error(), det)
+						return
+					}
+					kB := groupKeys(gB)
+					dup := false
+					seen := map[string]bool{}
+					for _, k := range e.got {
+						if seen[k] {
+							dup = true
+						}
+						seen[k] = true
+					}
+					det["groupA"] = sg.HexList(e.got)
+					det["groupB"] = sg.HexList(kB)
+					if len(e.got) != want || dup {
+						r.Violation(c.Idx, "malformed-group mode=concurrent", fmt.Sprintf("group computed under concurrency has %d members (configured %d), duplicate member: %v", len(e.got), want, dup), det)
+						return
+					}
+					if !eq(e.got, kB) {
+						r.Violation(c.Idx, "concurrent-differs-from-sequential", fmt.Sprintf("a group computed while %d goroutines used the coordinator differs from the sequentially computed group for the same input", workers), det)
+						return
+					}
+				}
 			}
 		}
 		r.Count("cache_hits_on_A", int(atomic.LoadInt64(&cache.hits)))
